@@ -115,6 +115,10 @@ __strpd_std(const char *str, char **ep)
 			}
 			switch (*(sp = tmp)) {
 			case '\0':
+			case ' ':
+			case '\t':
+			case 'T':
+				/* could be a time that follows */
 				goto guess;
 			case 'B':
 				/* it's a bizda/YMDU before ultimo date */
